@@ -356,7 +356,14 @@ func zzC15FetchASM() {
 	env := &zzOAuthEnv{}
 	zzOA = env
 	asURL := []string{zzAS + "/.well-known/oauth-authorization-server", "http://evil.example/.well-known/oauth-authorization-server", "http://localhost:9000/.well-known/oauth-authorization-server"}[vChoice("asMetadataURL", 3)]
-	issuer := vStringN("issuer", 19)
+	// the issuer the document claims: any text of up to 19 bytes, or one of the look-alikes of the expected issuer that
+	// differ where a lenient comparison would not look (port, host case, path, scheme, userinfo, query)
+	issuer := ""
+	if k := vChoice("issuerShape", 10); k == 0 {
+		issuer = vStringN("issuer", 19)
+	} else {
+		issuer = []string{zzAS, zzAS + "/", zzAS + ":8443", "https://AS.example", zzAS + "/tenant", "http://as.example", "https://user@as.example", zzAS + "?x=1", zzAS + "//"}[k-1]
+	}
 	pkce := vChoice("pkce", 3)
 	field := vChoice("field", 9) // which URL field carries the drawn value; the others are good or empty
 	val := zzURLAlphabet[vChoice("value", 6)]
